@@ -42,6 +42,10 @@ CLAIMS = {
          "sequential driver: reordering of the detached change broadcasts (F15) is not exercised"),
  "C15": ("model_checking", SIG + " C15 clauses: source/username authentic, privileged flag = sender is operator, recipients exactly as addressed, noecho, spoof rejected and closes only the offender, history replay to a joiner equals the last <=50 broadcast chats minus what clearchat designated.",
          "history age is not exercised (only the count bound)"),
+ "C08": ("model_checking", "Auth.tla's password table (12 960 rows: entry kind x wildcard kind x credential x role x allow-recording x unrestricted-tokens) and hash table (432 rows of administration-tool parameters) are enumerated completely by TLC with the decision the property demands; every row is materialised (real JSON descriptions, real plain/pbkdf2/bcrypt records, galenectl's real makePassword) and decided by the real Description.GetPermission / Password.Match; the rights in the real server's joined messages after any moderation history are judged by SigMonitor (Signalling.tla, exhaustive at 3 stimuli) against the same role table.",
+         "hash strength out of scope; cheap hash parameters; malformed records judged only as 'never authorise'"),
+ "C09": ("model_checking", "Auth.tla's stateful-token table (scope over path components incl. root and the global-administrator question, window at far/near instants, username rules) and signed-token table (key sets with HS256/HS384/ES256 with/without kid, foreign signer, HMAC keyed with a public key, alg none, kid header, expiry, audience path/host with/without canonicalHost) are enumerated completely by TLC; every row is materialised (token.Update into a real token file; JWTs freshly signed with golang-jwt) and decided by the real token.Parse(...).Check / GetPermission.",
+         "golang-jwt trusted; near-edge instants are 3 s away; RS256 not in the table"),
 }
 REASON_DEFAULT = "check under construction (not yet registered); see DESIGN.md section 5"
 NA = {}
